@@ -13,7 +13,7 @@ def scenario(rng, flav):
     """returns (setup lines, operation lines, meta); operation lines do not contain judgement points"""
     bs = 512 if flav & 1 else 488
     X, Y, Z, S, B = hexs(b"Xfile"), hexs(b"Yfile"), hexs(b"Zfile"), hexs(b"Small"), hexs(b"bystander")
-    kind = rng.choice(["plain", "plain", "reuse", "reuse", "hole-intact", "exthole", "exthole", "dir", "dir-reuse", "dir-clash", "clash", "twice"])
+    kind = rng.choice(["plain", "plain", "reuse", "reuse", "hole-intact", "exthole", "exthole", "dir", "dir-reuse", "dir-clash", "dir-twice", "dir-twice", "clash", "twice"])
     setup = ["open 0 - %s w" % B, "write 0 3 %d" % (5 * bs), "close 0"]
     ops = []
     size = rng.choice([0, 1, bs, 5 * bs, 72 * bs, 72 * bs + 1, 100 * bs, 150 * bs])
@@ -39,7 +39,7 @@ def scenario(rng, flav):
                   "open 0 - %s w" % X, "write 0 4 %d" % (72 * bs), "close 0", "rm - %s" % S,
                   "open 0 - %s rw" % X, "seek 0 %d" % (72 * bs), "write 0 8 %d" % rng.choice([1, bs, 30 * bs]), "close 0"]
         ops += ["lookup - %s" % X, "rm - %s" % X, "open 1 - %s w" % Y, "close 1", "undel - L %s" % X]
-    elif kind in ("dir", "dir-reuse", "dir-clash"):
+    elif kind in ("dir", "dir-reuse", "dir-clash", "dir-twice"):
         D = hexs(b"Xdir")
         setup += ["mkdir - %s" % D]
         ops += ["lookup - %s" % D, "rm - %s" % D]
@@ -52,6 +52,9 @@ def scenario(rng, flav):
             ops += ["rm - %s" % S, "open 1 - %s w" % D, "close 1"]
             ops.remove("rm - %s" % S)
             ops.insert(1, "rm - %s" % S)
+        if kind == "dir-twice":
+            # the undelete is repeated on the directory that is live again (refused: nothing may change, in particular not its bitmap bit)
+            ops += ["undel - L %s" % D, "mkdir %s %s" % (D, hexs(b"kept")), "undel - L %s" % D]
         ops += ["undel - L %s" % D, "mkdir %s %s" % (D, hexs(b"inner")), "open 2 %s %s w" % (D, hexs(b"f")), "write 2 3 %d" % bs, "close 2"]
         X = D
     else:   # clash: the name is taken again
